@@ -153,13 +153,23 @@ def chain_noncover(c, hash_name, wide):
     return repr(res)
 
 
-@harness(P, params=lambda tier: [dict(hash_name=h, L0v=v) for h in HASHES for v in (0, 361, (1 << 31) - 1)] if tier == "thorough" else
-         [dict(hash_name="SHA256", L0v=361), dict(hash_name="SHA1", L0v=(1 << 31) - 1)],
+NOWS = [None, (9, 6), (31, 31), (0, 0), (31, 0), (5, 31)]
+
+
+@harness(P, params=lambda tier: [dict(hash_name=h, L0v=v, now=NOWS[(i + j) % len(NOWS)]) for i, h in enumerate(HASHES) for j, v in enumerate((0, 361, (1 << 31) - 1))] +
+         [dict(hash_name="SHA512", L0v=361, now=n) for n in NOWS[1:]] if tier == "thorough" else
+         [dict(hash_name="SHA256", L0v=361, now=None), dict(hash_name="SHA1", L0v=(1 << 31) - 1, now=None), dict(hash_name="SHA384", L0v=361, now=(9, 6)),
+          dict(hash_name="SHA512", L0v=5, now=(31, 31))],
          bounds="root-key route: KeyCache.load_key(root) then KeyCache._get_key(sd, rkid, L0, l1, l2) for every (l1,l2) in [0,31]^2 and L0 in {0, 361, 2^31-1} (dictionary key, listed), then "
-         "GroupKeyEnvelope.get_kek in nonce mode: the key fed to the final KDF is the spec key L2(l1,l2) derived with the root key's hash",
+         "GroupKeyEnvelope.get_kek in nonce mode: the key fed to the final KDF is the spec key L2(l1,l2) derived with the root key's hash; with now=(L1n,L2n) the same "
+         "cache has first served a protect at that (listed) position of the same L0 - _get_protection_gke_from_cache then _store_key, as the protect functions do",
          outside="L0 >= 2^31 (refused, see C05)", must_reach=("root route: kek derived from spec key",), max_steps=60000)
-def root_route(c, hash_name, L0v):
+def root_route(c, hash_name, L0v, now):
+    import time
+
     from dpapi_ng._blob import KeyIdentifier
+
+    from . import e2e
 
     rk_bytes = c.bytes("rkid", 16)
     L0 = L0v  # KeyCache uses L0 as a dictionary key: listed values
@@ -174,11 +184,18 @@ def root_route(c, hash_name, L0v):
             return b"K" * 32
         return inner(algorithm, secret, label, context, length)
 
-    c.stubs([(_crypto.kdf, kdf_stub)])
+    tns = e2e.ns_of_filetime(L0 * e2e.L0_TICKS + now[0] * 32 * e2e.B + now[1] * e2e.B + 12345) if now else None
+    c.stubs([(_crypto.kdf, kdf_stub)] + ([(time.time_ns, lambda: tns)] if now else []))
     # concrete uuid object as dictionary key; its bytes_le are the symbolic bytes (the code only ever reads .bytes_le)
     key_obj = FakeUUID(rk_bytes)
     cache = _client.KeyCache()
     c.call(cache.load_key, Key("Root"), key_obj, kdf_parameters=_gkdi.KDFParameters(hash_name).pack())
+    if now:
+        # an earlier protect on the same cache (what ncrypt_protect_secret does with a cache hit)
+        gke = c.call(_client._get_protection_gke_from_cache, key_obj, sd, cache)
+        g = gke.l2_key if gke is not None else None
+        c.check(isinstance(g, Key) and g.kind == "L2" and (gke.l0, g.j, g.k) == (L0, now[0], now[1]) and (gke.l1, gke.l2) == now, "root route: protect derives the spec key of 'now'")
+        c.call(cache._store_key, sd, gke)
     l1, l2 = c.int("l1", 0, 31), c.int("l2", 0, 31)
     l0c = L0
     env = c.call(cache._get_key, sd, key_obj, l0c, l1, l2)
